@@ -1,5 +1,6 @@
 //! copia-verif-harness: runs the implementation side of the correspondence checks.
 mod util;
+mod cli;
 mod c17;
 mod delta;
 
